@@ -388,6 +388,40 @@ def moved_dist_events():
     return {"hdr": {"universe": "plans"}, "ev": ev}
 
 
+def direct_value_consumer_events():
+    """A variable without a distribution that the builder only finds because a calculator reads its *value node*
+    directly (legal; the variable itself is never added): the model holds the variable with all of its nodes, the proxy
+    included.  Plan ids: 1 x_value, 2 x_var_value, 3 the calculator; with a second, distributed variable read the same
+    way: 4 y_value, 5 y_var_value, 6 its distribution node, 7 a calculator on y's value node."""
+    import tensorflow_probability.substrates.jax.distributions as tfd
+    ev = []
+    for with_dist in (False, True):
+        x = lsl.Var(jnp.float32(1.0), name="x")
+        x.value_node.name, x.var_value_node.name = "n1", "n2"
+        c = lsl.Calc(lambda v: v + 1.0, x.value_node, _name="n3")
+        inp, kinds, roots = [[], [1], [1]], ["v", "p", "c"], [c]
+        if with_dist:
+            y = lsl.Var(jnp.float32(2.0), lsl.Dist(tfd.Normal, loc=0.0, scale=1.0, _name="n6"), name="y")
+            y.value_node.name, y.var_value_node.name = "n4", "n5"
+            c2 = lsl.Calc(lambda v: 2.0 * v, y.value_node, _name="n7")
+            inp, kinds, roots = inp + [[], [4], [5], [4]], kinds + ["v", "p", "d", "c"], [c, c2]
+        ids = {f"n{i}": i for i in range(1, len(kinds) + 1)}
+        e = {"ev": "plan_built", "inp": inp, "kinds": kinds}
+        try:
+            m = lsl.GraphBuilder().add(*roots).build_model()
+            own = [nd for nd in m._sorted_nodes if nd.name in ids]
+            e.update({"order": [ids[nd.name] for nd in own],
+                      "outs": [sorted(ids[o.name] for o in m.nodes[f"n{i}"].outputs if o.name in ids) if f"n{i}" in m.nodes else [-1]
+                               for i in range(1, len(kinds) + 1)],
+                      "all_names": sorted(m.nodes) + sorted("var:" + v for v in m.vars),
+                      "frozen": all(nd.model is m for nd in m.nodes.values()),
+                      "var_nodes_present": all(nd.name in m.nodes for v in m.vars.values() for nd in v.nodes)})
+        except Exception as ex:  # noqa: BLE001
+            e.update({"order": [], "outs": [], "all_names": ["crash:" + classify(ex)], "frozen": False, "var_nodes_present": False})
+        ev.append(e)
+    return {"hdr": {"universe": "plans"}, "ev": ev}
+
+
 def user_total_nodes_events():
     """A builder with a user-defined log-likelihood node is built with copy=True several times: every model uses the
     user's node (the builder keeps what it was given)."""
